@@ -1855,28 +1855,34 @@ func RunFrame(frame *py.Frame) (res py.Object, err error) {
 		if debugging {
 			debugf("* %4d:", frame.Lasti)
 		}
-		opcode = OpCode(opcodes[frame.Lasti])
-		verifPc := frame.Lasti
-		frame.Lasti++
-		if opcode.HAS_ARG() {
-			arg = int32(opcodes[frame.Lasti])
-			frame.Lasti++
-			arg += int32(opcodes[frame.Lasti]) << 8
-			frame.Lasti++
-			if vm.extended {
-				arg += vm.ext << 16
-			}
-			if debugging {
-				debugf(" %v(%d)\n", opcode, arg)
-			}
+		if frame.Throw != nil {
+			// generator.throw(): the frame is resumed by raising the
+			// exception at the yield where it was suspended
+			err, frame.Throw = frame.Throw, nil
 		} else {
-			if debugging {
-				debugf(" %v\n", opcode)
+			opcode = OpCode(opcodes[frame.Lasti])
+			verifPc := frame.Lasti
+			frame.Lasti++
+			if opcode.HAS_ARG() {
+				arg = int32(opcodes[frame.Lasti])
+				frame.Lasti++
+				arg += int32(opcodes[frame.Lasti]) << 8
+				frame.Lasti++
+				if vm.extended {
+					arg += vm.ext << 16
+				}
+				if debugging {
+					debugf(" %v(%d)\n", opcode, arg)
+				}
+			} else {
+				if debugging {
+					debugf(" %v\n", opcode)
+				}
 			}
+			vm.extended = false
+			verifInstr(frame, opcode, arg, verifPc)
+			err = jumpTable[opcode](&vm, arg)
 		}
-		vm.extended = false
-		verifInstr(frame, opcode, arg, verifPc)
-		err = jumpTable[opcode](&vm, arg)
 		if err != nil {
 			// FIXME shouldn't be doing this - just use err?
 			if errExcInfo, ok := err.(py.ExceptionInfo); ok {
